@@ -6,6 +6,7 @@ import MaltModel.Conv.IfExp
 import MaltModel.Conv.Logical
 import MaltModel.Conv.Variables
 import MaltModel.Conv.NoNative
+import MaltModel.Conv.Slices
 /- Driver handlers for the C04 correspondence and the verified checker (glue only). -/
 namespace Malt.Drv.C04
 open Malt Malt.Py Malt.Conv Malt.Gen
@@ -137,6 +138,94 @@ partial def annotationCallsS : Stmt → Nat
   | .other _ _ _ bs => (bs.map annotationCallsS).sum
   | _ => 0
 
+/-! regions of the FINAL tree used to attribute a surviving native node to a known finding -/
+partial def idsE : Expr → List Nat
+  | .noneMarker => []
+  | .name i .. | .const i .. => [i]
+  | .attr i v _ _ => i :: idsE v
+  | .subscript i v s _ => i :: (idsE v ++ idsE s)
+  | .call i f as ks => i :: (idsE f ++ as.flatMap idsE ++ ks.flatMap idsE)
+  | .keyword i _ _ v => i :: idsE v
+  | .boolop i _ vs => i :: vs.flatMap idsE
+  | .unary i _ e => i :: idsE e
+  | .binop i _ l r => i :: (idsE l ++ idsE r)
+  | .compare i l _ rs => i :: (idsE l ++ rs.flatMap idsE)
+  | .ifexp i t b e => i :: (idsE t ++ idsE b ++ idsE e)
+  | .lambda i a b => i :: (idsE a ++ idsE b)
+  | .seq i _ es _ => i :: es.flatMap idsE
+  | .starred i v _ => i :: idsE v
+  | .namedexpr i t v => i :: (idsE t ++ idsE v)
+  | .comp i _ es gs => i :: (es.flatMap idsE ++ gs.flatMap idsE)
+  | .comprehension i t it ifs _ => i :: (idsE t ++ idsE it ++ ifs.flatMap idsE)
+  | .arguments i a b c d e f g => i :: (a ++ b ++ c ++ d ++ e ++ f ++ g).flatMap idsE
+  | .arg i _ an => i :: an.flatMap idsE
+  | .withitem i c v => i :: (idsE c ++ v.flatMap idsE)
+  | .other i _ _ ks => i :: ks.flatMap idsE
+
+structure Regions where
+  ifexpArgs : List Nat := []      -- inside the arguments of an `ag__.if_exp(...)` call
+  paramAnn : List Nat := []       -- inside a parameter annotation
+  loopOpts : List Nat := []       -- inside the options argument of `ag__.for_stmt` / `ag__.while_stmt`
+  deriving Inhabited
+
+def Regions.add (a b : Regions) : Regions :=
+  ⟨a.ifexpArgs ++ b.ifexpArgs, a.paramAnn ++ b.paramAnn, a.loopOpts ++ b.loopOpts⟩
+
+partial def regionsE : Expr → Regions
+  | .call _ f as ks =>
+      let q := (qnStr f).getD ""
+      let here : Regions :=
+        if q == "ag__.if_exp" then { ifexpArgs := as.flatMap idsE }
+        else if q == "ag__.for_stmt" || q == "ag__.while_stmt" then { loopOpts := (as.getLast?.map idsE).getD [] }
+        else {}
+      ((f :: as ++ ks).map regionsE).foldl Regions.add here
+  | .arguments _ a b c d e f g =>
+      let anns : Regions := { paramAnn := (a ++ b ++ c ++ d ++ f).flatMap fun x => match x with
+        | .arg _ _ an => an.flatMap idsE
+        | _ => [] }
+      ((a ++ b ++ c ++ d ++ e ++ f ++ g).map regionsE).foldl Regions.add anns
+  | .noneMarker | .name .. | .const .. => {}
+  | .attr _ v _ _ => regionsE v
+  | .subscript _ v s _ => (regionsE v).add (regionsE s)
+  | .keyword _ _ _ v => regionsE v
+  | .boolop _ _ vs => (vs.map regionsE).foldl Regions.add {}
+  | .unary _ _ e => regionsE e
+  | .binop _ _ l r => (regionsE l).add (regionsE r)
+  | .compare _ l _ rs => ((l :: rs).map regionsE).foldl Regions.add {}
+  | .ifexp _ t b e => ((regionsE t).add (regionsE b)).add (regionsE e)
+  | .lambda _ a b => (regionsE a).add (regionsE b)
+  | .seq _ _ es _ => (es.map regionsE).foldl Regions.add {}
+  | .starred _ v _ => regionsE v
+  | .namedexpr _ t v => (regionsE t).add (regionsE v)
+  | .comp _ _ es gs => ((es ++ gs).map regionsE).foldl Regions.add {}
+  | .comprehension _ t it ifs _ => ((t :: it :: ifs).map regionsE).foldl Regions.add {}
+  | .arg _ _ an => (an.map regionsE).foldl Regions.add {}
+  | .withitem _ c v => ((c :: v).map regionsE).foldl Regions.add {}
+  | .other _ _ _ ks => (ks.map regionsE).foldl Regions.add {}
+
+partial def regionsS : Stmt → Regions
+  | .functionDef _ _ a b d r _ => (((a :: d ++ r).map regionsE) ++ b.map regionsS).foldl Regions.add {}
+  | .classDef _ _ bs ks b ds => (((bs ++ ks ++ ds).map regionsE) ++ b.map regionsS).foldl Regions.add {}
+  | .ret _ v => (v.map regionsE).foldl Regions.add {}
+  | .delete _ ts => (ts.map regionsE).foldl Regions.add {}
+  | .assign _ ts v => ((v :: ts).map regionsE).foldl Regions.add {}
+  | .augAssign _ t _ v => (regionsE t).add (regionsE v)
+  | .annAssign _ t an v _ => ((t :: an :: v).map regionsE).foldl Regions.add {}
+  | .for_ _ t it b e x _ => (((t :: it :: x).map regionsE) ++ (b ++ e).map regionsS).foldl Regions.add {}
+  | .while_ _ t b e => (regionsE t :: (b ++ e).map regionsS).foldl Regions.add {}
+  | .if_ _ t b e => (regionsE t :: (b ++ e).map regionsS).foldl Regions.add {}
+  | .with_ _ its b _ => ((its.map regionsE) ++ b.map regionsS).foldl Regions.add {}
+  | .raise _ e c => ((e ++ c).map regionsE).foldl Regions.add {}
+  | .try_ _ b h e f => ((b ++ h ++ e ++ f).map regionsS).foldl Regions.add {}
+  | .handler _ t _ b => ((t.map regionsE) ++ b.map regionsS).foldl Regions.add {}
+  | .assert_ _ t m => ((t :: m).map regionsE).foldl Regions.add {}
+  | .expr _ v => regionsE v
+  | .other _ _ es bs => ((es.map regionsE) ++ bs.map regionsS).foldl Regions.add {}
+  | _ => {}
+
+def regionsSexp (r : Regions) : Sexp :=
+  .list [.list (r.ifexpArgs.map Sexp.ofNat), .list (r.paramAnn.map Sexp.ofNat), .list (r.loopOpts.map Sexp.ofNat)]
+
 def run (f : Option String) : String := f.getD "bad-args"
 
 def handlers : List (String × (List Sexp → String)) := [
@@ -199,6 +288,14 @@ def handlers : List (String × (List Sexp → String)) := [
       match root with
       | .stmt s => pure (toString (Sexp.list [.atom "ok", stmtsToSexp (Variables.visitS (Variables.hasOrigTable t) s)]))
       | .expr e => pure (toString (Sexp.list [.atom "ok", (Variables.visitE (Variables.hasOrigTable t) e).toSexp]))),
+  ("c04.slices", fun a => run do
+      let [r] := a | none
+      match ← root? r with
+      | .stmt s =>
+          match Slices.visitS s with
+          | none => pure "error:NotImplementedError"
+          | some ss => pure (toString (Sexp.list [.atom "ok", stmtsToSexp ss]))
+      | .expr e => pure (toString (Sexp.list [.atom "ok", (Slices.visitE e).toSexp]))),
   -- c04.nonative <eqOn> <builtinsOn> <root>  ->  list of offenders (empty = noNative)
   ("c04.nonative", fun a => run do
       let [e, b, r] := a | none
@@ -206,6 +303,11 @@ def handlers : List (String × (List Sexp → String)) := [
       match ← root? r with
       | .stmt s => pure (toString (Sexp.list ((NoNative.offenders cfg [s]).map offSexp)))
       | .expr x => pure (toString (Sexp.list ((NoNative.offE cfg [] false .normal x).map offSexp)))),
+  ("c04.regions", fun a => run do
+      let [r] := a | none
+      match ← root? r with
+      | .stmt s => pure (toString (regionsSexp (regionsS s)))
+      | .expr x => pure (toString (regionsSexp (regionsE x)))),
   ("c04.annotation-calls", fun a => run do
       let [r] := a | none
       match ← root? r with
